@@ -4,7 +4,8 @@ Spec: spec/Overlap.tla (+OverlapDefs), trace spec: spec/Trace_Overlap.tla.  DESI
 Every case is a scene built through the public pipeline (place_objects -> apply_params) with one or
 two Devices and one or two sources/detectors whose boxes stand in a chosen Allen relation per axis.
 The record carries the boxes as placed and integer fingerprints of every state array of the objects
-(observed / fresh apply on post-device arrays / apply on pre-device arrays); TLC decides."""
+(observed / fresh apply on ALL arrays the call returned / apply on pre-device arrays) after each of two
+consecutive apply_params calls with different parameters; TLC decides."""
 import hashlib
 import itertools
 import random
@@ -39,10 +40,12 @@ def model_check(ctx):
     else:
         ctx.mc("Overlap", "MC_Overlap_t.cfg", workers=W, label="1 device, object over all 28^3 boxes of the 7^3 lattice")
         ctx.mc("Overlap", "MC_Overlap_pair.cfg", workers=W, label="2 devices, 2 objects over all axis sweeps + diagonal boxes, rule closed_all_axes")
-    ctx.mc_negative("Overlap", "MC_Overlap_neg.cfg", workers=W)
+    ctx.mc_negative("Overlap", "MC_Overlap_neg.cfg", workers=W)   # flag rule of the code before the fix
+    ctx.mc_negative("Overlap", "MC_Overlap_neg2.cfg", workers=W)  # dispersion/conductivity copies taken before the device loop
     ctx.assumptions += [
         "objects have no random offsets, so apply() does not depend on the PRNG key and bit-equality with a fresh apply is meaningful",
-        "devices are discrete two-material devices with one design voxel per cell and a parity parameter pattern, so every device cell changes",
+        "devices are discrete two-material devices with one design voxel per cell and a parity parameter pattern (inverted in the second apply_params call), so every device cell changes in every call",
+        "device materials: eps 2 / eps 4 (plain), eps 2 / eps_inf 4 + one Lorentz pole, eps 2 / eps 4 + electric conductivity; apply_params never writes electric_conductivity, so conductive scenes only exercise objects reading that array, they cannot go stale",
         "state = all pytree leaves of the object (private fields set by apply); detectors without an apply override have no material-dependent state and pass trivially",
         "mode sources/detectors: the eigenmode solver is not bit-reproducible, so only the stored material slices (exact) and the effective index (3e-8 absolute) are compared, not the mode fields",
     ]
@@ -75,10 +78,11 @@ def gen_cases(ctx):
                 rs = list(bgr)
                 rs.insert(a, r)
                 triples.append(tuple(rs))
+    triples_sweep = list(triples)
     if ctx.quick:
         ctx.exhaustive = False
         allt = list(itertools.product(REL, repeat=3))
-        triples += rng.sample(allt, 30)
+        triples += rng.sample(allt, 20)
     else:
         triples = list(itertools.product(REL, repeat=3))
     for rs in triples:
@@ -121,6 +125,38 @@ def gen_cases(ctx):
     for i, (b1, b2) in enumerate(pairs):
         yield from emit(_case(f"two-{i}", "dipole", b1, devs=two, extra=[{"kind": "dipole", "box": [list(b) for b in b2]}]))
 
+    # 6. devices whose second material is Lorentz-dispersive or conductive: the object's set-up also reads
+    #    dispersive_c1..c4 / electric_conductivity, which must be the POST-device arrays of the same call
+    aux = [("dipole", ("during", "during", "during")), ("dipole", ("equals", "equals", "equals")), ("dipole", ("overlaps", "during", "during")),
+           ("dipole", ("contains", "contains", "contains")), ("dipole", ("starts", "finishes", "during")), ("dipole", ("finished_by", "overlapped_by", "started_by")),
+           ("dipole", ("meets", "during", "during")), ("dipole", ("before", "before", "before"))]
+    if not ctx.quick:
+        aux += [("dipole", rs) for rs in triples_sweep]
+    for k, rs in aux:
+        c = _case(f"lorentz-{k}-{rid(rs)}", k, [REP[r] for r in rs])
+        c["devmat"] = "lorentz"
+        yield from emit(c)
+    for k, ax, rt, bgr in (("uniform", 0, "during", ("during", "during")), ("gauss", 1, "during", ("contains", "overlapped_by")),
+                           ("uniform", 2, "starts", ("equals", "during"))):
+        box = [REP[bgr[0]], REP[bgr[1]]]
+        box.insert(ax, THIN[rt])
+        rs = list(bgr)
+        rs.insert(ax, rt)
+        c = _case(f"lorentz-{k}{ax}-{rid(rs)}", k, box)
+        c["devmat"] = "lorentz"
+        yield from emit(c)
+    for dm, k, box in (("lorentz", "mode", [(3, 4), (2, 5), (2, 5)]), ("lorentz", "modedet", [(2, 5), (3, 4), (2, 5)]),
+                       ("cond", "modedet", [(2, 5), (3, 4), (2, 5)]), ("cond", "mode", [(3, 4), (2, 5), (2, 5)])):
+        c = _case(f"{dm}-{k}-big-" + "_".join(f"{a}{b}" for a, b in box), k, box, devs=big)
+        c["devmat"] = dm
+        yield from emit(c)
+    c = _case("cond-dipole-d-d-d", "dipole", [REP["during"]] * 3)
+    c["devmat"] = "cond"
+    yield from emit(c)
+    c = _case("lorentz-two", "dipole", [(1, 2)] * 3, devs=two, extra=[{"kind": "dipole", "box": [[2, 6], [5, 6], [5, 6]]}])
+    c["devmat"] = "lorentz"
+    yield from emit(c)
+
     # 5. seeded random device and object boxes on an 8^3 lattice (not tied to the representatives)
     def riv(n):
         s = rng.randrange(0, n)
@@ -130,7 +166,7 @@ def gen_cases(ctx):
         s = rng.randrange(0, n - 2)
         return [s, rng.randrange(s + 3, n + 1)]
 
-    for i in range(20 if ctx.quick else 400):
+    for i in range(16 if ctx.quick else 400):
         if rng.random() < 0.5:
             # bias towards containment: device >= 3 cells per axis, object strictly inside it on most axes
             dev = [riv3(8) for _ in range(3)]
@@ -188,16 +224,44 @@ def _make(kind, name, shape):
     raise ValueError(kind)
 
 
+def _device_materials(devmat):
+    import fdtdx
+
+    a = fdtdx.Material(permittivity=2.0)
+    if devmat == "lorentz":
+        from fdtdx.dispersion import DispersionModel, LorentzPole
+
+        model = DispersionModel(poles=(LorentzPole(resonance_frequency=4.0e15, damping=1e11, delta_epsilon=2.25),))
+        return {"a": a, "b": fdtdx.Material(permittivity=4.0, dispersion=model)}
+    if devmat == "cond":
+        return {"a": a, "b": fdtdx.Material(permittivity=4.0, electric_conductivity=2.0e4)}
+    return {"a": a, "b": fdtdx.Material(permittivity=4.0)}
+
+
 def observe(case):
+    try:
+        return _observe(case)
+    except Exception as e:  # noqa: BLE001
+        # the ARPACK eigen-solver behind the mode objects starts from a random vector and occasionally fails to
+        # converge on these tiny cross-sections; that is no observation about C29: report the scene as skipped
+        if "ARPACK" in str(e) and any(o["kind"] in ("mode", "modedet") for o in case["objs"]):
+            return {"id": case["id"], "n": case.get("n", N), "devmat": case.get("devmat", "plain"), "devs": case["devs"], "objs": [], "skipped": True}
+        raise
+
+
+def _observe(case):
+    import warnings
+
     import jax
     import jax.numpy as jnp
     import numpy as np
     import fdtdx
 
     n = case.get("n", N)
+    devmat = case.get("devmat", "plain")
     cfg = fdtdx.SimulationConfig(time=20e-15, grid=fdtdx.UniformGrid(spacing=50e-9), dtype=jnp.float64)
     vol = fdtdx.SimulationVolume(partial_grid_shape=(n, n, n), material=fdtdx.Material(permittivity=1.0))
-    mats = {"a": fdtdx.Material(permittivity=2.0), "b": fdtdx.Material(permittivity=4.0)}
+    mats = _device_materials(devmat)
     objs, cons = [vol], []
     dnames, onames = [], []
     for i, d in enumerate(case["devs"]):
@@ -213,51 +277,75 @@ def observe(case):
         objs.append(ob)
         onames.append(ob.name)
         cons.append(ob.set_grid_coordinates(axes=(0, 1, 2), sides=("-", "-", "-"), coordinates=tuple(a for a, _ in o["box"])))
-    oc, arrays, params, cfg2, _ = fdtdx.place_objects(objs, cfg, cons)
-    # parity pattern: material index = (i+j+k) mod 2 of the device-local cell index
-    p = {dn: jnp.asarray(np.indices(params[dn].shape).sum(0) % 2, dtype=jnp.float64) for dn in dnames}
-    arrays2, oc2, _ = fdtdx.apply_params(arrays, oc, p)
+    with warnings.catch_warnings():
+        warnings.simplefilter("ignore")  # e.g. the courant-stability hint for dispersive media: no time stepping here
+        oc, arrays, params, cfg2, _ = fdtdx.place_objects(objs, cfg, cons)
 
-    def kw(arr):
+    def kw(arr, aux=None):
+        aux = arr if aux is None else aux
         return dict(
             key=jax.random.PRNGKey(7), inv_permittivities=arr.inv_permittivities, inv_permeabilities=arr.inv_permeabilities,
-            dispersive_c1=arr.dispersive_c1, dispersive_c2=arr.dispersive_c2, dispersive_c3=arr.dispersive_c3,
-            dispersive_c4=arr.dispersive_c4, electric_conductivity=arr.electric_conductivity,
+            dispersive_c1=aux.dispersive_c1, dispersive_c2=aux.dispersive_c2, dispersive_c3=aux.dispersive_c3,
+            dispersive_c4=aux.dispersive_c4, electric_conductivity=aux.electric_conductivity,
         )
 
-    rec_objs = []
-    devs_placed = [[list(map(int, s)) for s in oc2[dn].grid_slice_tuple] for dn in dnames]
-    for o, on in zip(case["objs"], onames):
-        got = oc2[on]
-        fresh, pre = got.apply(**kw(arrays2)), got.apply(**kw(arrays))
-        lo, lf, lp = _leaves(got), _leaves(fresh), _leaves(pre)
-        names = sorted(set(lo) | set(lf) | set(lp))
-        nums = []
-        if o["kind"] in ("mode", "modedet"):
-            # the eigenmode solver is not bit-reproducible (last-ulp noise, arbitrary basis for degenerate modes):
-            # compare the sampled material slices exactly and the effective index within a stated tolerance
-            names = [k for k in names if k not in NOISY]
-            for x in (got, fresh, pre):
+    devs_placed = [[list(map(int, s)) for s in oc[dn].grid_slice_tuple] for dn in dnames]
+    rec_objs = [
+        {"kind": o["kind"], "box": [list(map(int, s)) for s in oc[on].grid_slice_tuple], "tol": NEFF_TOL, "calls": []}
+        for o, on in zip(case["objs"], onames)
+    ]
+    # consecutive apply_params calls on what the previous call returned; parameter patterns alternate:
+    # material index = (i+j+k + call-1) mod 2 of the device-local cell index
+    arr_prev, oc_prev = arrays, oc
+    for call in range(case.get("ncalls", 2)):
+        p = {dn: jnp.asarray((np.indices(params[dn].shape).sum(0) + call) % 2, dtype=jnp.float64) for dn in dnames}
+        arr_new, oc_new, _ = fdtdx.apply_params(arr_prev, oc_prev, p)
+        for o, on, ro in zip(case["objs"], onames, rec_objs):
+            got = oc_new[on]
+            # reference set-ups start from the object as place_objects returned it (for a flagged object: never
+            # applied before), so a state-dependent apply cannot make the reference follow the observed object
+            fresh, pre = oc[on].apply(**kw(arr_new)), oc[on].apply(**kw(arrays))
+            lo, lf, lp = _leaves(got), _leaves(fresh), _leaves(pre)
+            names = sorted(set(lo) | set(lf) | set(lp))
+            nums = []
+            modal = o["kind"] in ("mode", "modedet")
+
+            def neff(x):
                 v = np.asarray(getattr(x, "_neff" if o["kind"] == "mode" else "_mode_neff")).reshape(-1)[0]
-                nums.append([int(round(float(v.real) * NEFF_SCALE)), int(round(float(v.imag) * NEFF_SCALE))])
-            nums = [[nums[0][j], nums[1][j], nums[2][j]] for j in range(2)]
-        leaves = [[lo.get(k, -1), lf.get(k, -2), lp.get(k, -3)] for k in names]
-        r = {
-            "kind": o["kind"], "box": [list(map(int, s)) for s in got.grid_slice_tuple], "names": names, "leaves": leaves,
-            "nums": nums, "tol": NEFF_TOL,
-            "flagged": bool(any(oc2[dn].check_overlap(got) for dn in dnames)),
-            "changes": bool(any(x[1] != x[2] for x in leaves) or any(abs(x[1] - x[2]) > NEFF_TOL for x in nums)),
-            "has_snap": False, "snap": [], "snap_exact": True,
-        }
-        if o["kind"] == "dipole":
-            loc = got._inv_eps_local
-            if isinstance(loc, jax.Array):  # Null while the object has never been applied (then the leaves differ anyway)
-                v = 4.0 * np.asarray(loc, dtype=np.float64).reshape(-1)
-                rv = np.rint(v)
-                if v.size == int(np.prod(got.grid_shape)):
-                    r.update(has_snap=True, snap=[int(x) for x in rv], snap_exact=bool(np.all(rv == v)))
-        rec_objs.append(r)
-    return {"id": case["id"], "n": n, "devs": devs_placed, "objs": rec_objs}
+                return [int(round(float(v.real) * NEFF_SCALE)), int(round(float(v.imag) * NEFF_SCALE))]
+
+            if modal:
+                # the eigenmode solver is not bit-reproducible (last-ulp noise, arbitrary basis for degenerate modes):
+                # compare the sampled material slices exactly and the effective index within a stated tolerance
+                names = [k for k in names if k not in NOISY]
+                t = [neff(got), neff(fresh), neff(pre)]
+                nums = [[t[0][j], t[1][j], t[2][j]] for j in range(2)]
+            leaves = [[lo.get(k, -1), lf.get(k, -2), lp.get(k, -3)] for k in names]
+            q = {
+                "names": names, "leaves": leaves, "nums": nums,
+                "flagged": bool(any(oc_new[dn].check_overlap(got) for dn in dnames)),
+                "changes": bool(any(x[1] != x[2] for x in leaves) or any(abs(x[1] - x[2]) > NEFF_TOL for x in nums)),
+                "aux_dep": False, "has_snap": False, "snap": [], "snap_exact": True,
+            }
+            if devmat != "plain":
+                # does this object's state depend on the dispersion/conductivity arrays of THIS call? (coverage only):
+                # set it up against the new permittivities but the previous call's dispersion/conductivity arrays
+                mixed = oc[on].apply(**kw(arr_new, aux=arr_prev))
+                if modal:
+                    q["aux_dep"] = bool(any(abs(x - y) > NEFF_TOL for x, y in zip(neff(mixed), neff(fresh))))
+                else:
+                    lm = _leaves(mixed)
+                    q["aux_dep"] = bool(any(lm.get(k) != lf.get(k) for k in names))
+            if o["kind"] == "dipole" and devmat != "lorentz":
+                loc = got._inv_eps_local
+                if isinstance(loc, jax.Array):  # Null while the object has never been applied (then the leaves differ anyway)
+                    v = 4.0 * np.asarray(loc, dtype=np.float64).reshape(-1)
+                    rv = np.rint(v)
+                    if v.size == int(np.prod(got.grid_shape)):
+                        q.update(has_snap=True, snap=[int(x) for x in rv], snap_exact=bool(np.all(rv == v)))
+            ro["calls"].append(q)
+        arr_prev, oc_prev = arr_new, oc_new
+    return {"id": case["id"], "n": n, "devmat": devmat, "devs": devs_placed, "objs": rec_objs, "skipped": False}
 
 
 def classify(record, verdict):
@@ -279,7 +367,11 @@ def run(ctx):
     for r in recs[:2]:
         ctx.sample(r)
     # non-trivial = objects whose state really depends on the device (apply on pre- and post-device arrays differ)
-    ctx.nontrivial = sum(1 for r in recs for o in r["objs"] if o["changes"])
+    ctx.nontrivial = sum(1 for r in recs for o in r["objs"] if any(q["changes"] for q in o["calls"]))
+    ctx.extra_cov["object_calls_whose_state_depends_on_this_calls_dispersion_or_conductivity_arrays"] = sum(
+        1 for r in recs for o in r["objs"] for q in o["calls"] if q["aux_dep"])
+    ctx.extra_cov["scenes_skipped_eigensolver_failure"] = sum(1 for r in recs if r["skipped"])
+    ctx.extra_cov["scenes_by_device_material"] = {k: sum(1 for r in recs if r["devmat"] == k) for k in ("plain", "lorentz", "cond")}
     kinds = {}
     for r in recs:
         for o in r["objs"]:
